@@ -50,6 +50,8 @@ def strategy(tier):
         "sfile_dir": st.sampled_from(["cfgs", "cwd", "else/conf"]),
         # no per-user configuration file at all (the 'u' choices are ignored)
         "no_user": st.sampled_from([False, False, False, True]),
+        # CMINXDIR spelled with a leading tilde (as it arrives from a unit file or a quoted assignment)
+        "tilde": st.sampled_from([False, False, True]),
     })
 
 
@@ -74,7 +76,7 @@ def value_for(section, key, typ, src, flip, sb, absolute):
         if flip and src == "s":
             return []            # an empty list in a higher-priority source must not hide the lower ones
         # near-duplicates across sources (trailing slash, leading './', doubled slash) are different patterns
-        return {"s": ["pat_s1", "*.s2", "pat_c2", "./pat_u1"], "u": ["pat_u1", "pat_c1/", "gen*"], "c": ["pat_c1", "pat_c2/", "gen*/", "a//b"]}[src]
+        return {"s": ["pat_s1", "*.s2", "pat_c2", "./pat_u1"], "u": ["pat_u1", "pat_c1/", "gen*", "\\#hash_first.cmake", "a\\*b"], "c": ["pat_c1", "pat_c2/", "gen*/", "a//b"]}[src]
     if typ == "path-cli":
         rel = f"outdir_{src}/x"
         return sb.path("absout_" + src) if absolute else rel
@@ -174,9 +176,11 @@ def evaluate(case):
             recorded.append((input_file, copy.deepcopy(settings)))
         cminx.document = recorder
         try:
-            run = S.run_main(full_argv, cwd=cwd, cfgdir=sb.path("cfg"))
+            run = S.run_main(full_argv, cwd=cwd, cfgdir=sb.path("cfg"), tilde=bool(case.get("tilde")))
         finally:
             cminx.document = orig
+        if case.get("tilde"):
+            res.labels.append("CMINXDIR-with-tilde")
         res.labels += seen_subsets
         res.labels.append("wrong-type:" + ("effective" if wrong_effective else "shadowed" if wrong else "none"))
         res.nontrivial = nt
